@@ -314,6 +314,8 @@ def run(pid, spec, tier, seed, replay, root, t0):
                 died = any(s["rc"] not in (0, 1) for s in rs)
                 fails = [f for r in results for f in (r.get("failures") or [])]
                 if e["status"] == "fixed":
+                    # a failure classified as a (different) listed finding is not a regression of this defect
+                    fails = [f for f in fails if not f.get("known")]
                     if fails or died or not results:
                         msg = fails[0]["message"] if fails else "worker died / no result (rc=%s)\n%s" % ([s["rc"] for s in rs], tail(os.path.join(rs[0]["dir"], "output.log")))
                         violations.append(("regression of fixed defect %s: %s" % (e["id"], msg), wpath))
